@@ -1264,6 +1264,10 @@ func (a *Agent) TaskPrepare(Command int, Info any, Message *map[string]string, C
 		case "implant.sleep-obf.start-addr":
 			ConfigId = CONFIG_IMPLANT_SPFTHREADSTART
 
+			if len(strings.Split(ConfigVal.(string), "!")) < 2 || len(strings.Split(ConfigVal.(string), "+")) < 2 {
+				return nil, errors.New("config: expected <library>!<function>+<offset>")
+			}
+
 			var (
 				Library   = strings.Split(ConfigVal.(string), "!")[0]
 				Function  = strings.Split(ConfigVal.(string), "!")[1]
@@ -1340,6 +1344,10 @@ func (a *Agent) TaskPrepare(Command int, Info any, Message *map[string]string, C
 
 		case "inject.spoofaddr":
 			ConfigId = CONFIG_INJECT_SPOOFADDR
+
+			if len(strings.Split(ConfigVal.(string), "!")) < 2 || len(strings.Split(ConfigVal.(string), "+")) < 2 {
+				return nil, errors.New("config: expected <library>!<function>+<offset>")
+			}
 
 			var (
 				Library   = strings.Split(ConfigVal.(string), "!")[0]
